@@ -80,7 +80,73 @@ def oracle_curl(c):
     return why
 
 
+NOSTART_ERR = {"nostart-ctx-cancelled": "canceled", "nostart-ctx-expired": "deadline", "nostart-shell-missing": "notfound",
+               "nostart-shell-not-executable": "noexec"}
+
+
+def oracle_shell_nostart(c):
+    """An execution in which the shell was never started (context already done, shell missing / not executable): it is an
+    execution like any other -- Execute returns the launch error, the visible outcome is THIS execution's (Failure, exit -1 as
+    there is no process state, nothing captured), never the previous execution's, and the callback runs once."""
+    why = []
+    v, ex, st = c["variant"], c["exit"], c["status"]
+    what = "the shell was never started in this execution (%s; previous execution on this object: %s)" % (v[len("nostart-"):], c.get("prev"))
+    if c["err_nil"]:
+        why.append("Execute returned nil although " + what)
+    elif c["err_class"] != NOSTART_ERR[v]:
+        why.append("Execute returned an error of class %r, expected the launch error (%s)" % (c["err_class"], NOSTART_ERR[v]))
+    if st != FAILURE:
+        why.append("status %s after an execution in which %s" % ({NA: "NA", OK: "OK"}.get(st, st), what))
+    if ex != -1:
+        why.append("exit code %d is shown although %s (no process state: -1)" % (ex, what))
+    if not c["out_ok"] or not c["errout_ok"]:
+        why.append("stdout/stderr show %d/%d bytes although nothing ran in this execution (output of the previous execution?)" % (
+            c["out_len"], c["errout_len"]))
+    ncb = 1 if c["callback"] else 0
+    if c["cb_calls"] != ncb:
+        why.append("callback invoked %d times in this execution (expected %d)" % (c["cb_calls"], ncb))
+    if c["callback"] and c["cb_calls"] == 1 and (c["cb_status"] != st or c["cb_exit"] != ex):
+        why.append("the callback saw status %d / exit %d, committed are %d / %d" % (c["cb_status"], c["cb_exit"], st, ex))
+    return why
+
+
+def oracle_stream(c):
+    """Executions repeated on one CurlJob; the server keeps the body of the earlier response open."""
+    if c.get("error"):
+        return [c["error"]]
+    why = []
+    if not (c["first_err_nil"] and c["first_status"] == OK and c["first_code"] == 200):
+        why.append("first execution (200, headers delivered, body kept open by the server): err_nil=%s status=%d code=%d" % (
+            c["first_err_nil"], c["first_status"], c["first_code"]))
+    setting = "the server keeps the body of the previous execution's response open (%s); previous execution's context: %s" % (
+        c["prev_body"], c["first_ctx"])
+    if not c["second_returned"]:
+        reach = "its request had reached the server" if c["second_reached"] else "its request never reached the server"
+        if c["second"] == "hang-cancel":
+            why.append("cancelling the context passed to Execute did not abort the execution within %d ms (%s): %s; Execute %s" % (
+                c["patience_ms"], reach, setting,
+                "returned only after the harness made the server end the old stream" if c["returned_at_last"] else "never returned"))
+        else:
+            why.append("Execute did not return within %d ms although the server answers the request at once (%s): %s; Execute %s" % (
+                c["patience_ms"], reach, setting,
+                "returned only after the harness made the server end the old stream" if c["returned_at_last"] else "never returned"))
+        return why
+    if c["second"] == "plain":
+        if not c["err_nil"] or c["status"] != OK or c["code"] != 201:
+            why.append("second execution (server answers 201): err=%s status=%d held code=%d -- not the outcome of the most recent execution" % (
+                c["err_class"] or "nil", c["status"], c["code"]))
+    else:
+        if c["err_class"] != "canceled" or c["status"] != FAILURE or c["code"] != -1:
+            why.append("second execution (request held by the server, context cancelled): err=%s status=%d held code=%d" % (
+                c["err_class"] or "nil", c["status"], c["code"]))
+    if c["cb_calls"] != 2:
+        why.append("%d callbacks for 2 executions" % c["cb_calls"])
+    return why
+
+
 def oracle_shell(c):
+    if c["variant"] in NOSTART_ERR:
+        return oracle_shell_nostart(c)
     why = []
     want, ex, st = c["want"], c["exit"], c["status"]
     if ex != want:
@@ -200,6 +266,8 @@ def oracle(c):
         return oracle_leak(c)
     if k == "overlap":
         return oracle_overlap(c)
+    if k == "stream":
+        return oracle_stream(c)
     if k == "curl-bodies":
         n = c["handed_out"] - c["closed"]
         return ["%d response bodies unclosed after %d sequential executions" % (n, c["executions"])] if n > 1 else []
@@ -219,7 +287,7 @@ def oracle(c):
 SUBCMDS = {
     "http-synthetic": ["http", "synthetic"], "http-server": ["http", "server"], "http-transport": ["http", "transport"],
     "shell-exits": ["shell", "exits"], "shell-sizes": ["shell", "sizes"], "func": ["func"], "cancel": ["cancel"],
-    "overlap": ["overlap"],
+    "overlap": ["overlap"], "http-stream": ["http", "stream"], "shell-nostart": ["shell", "nostart"],
 }
 
 
@@ -417,7 +485,10 @@ def run(ctx):
                 "0..1 MiB on stdout, stderr, both; function results/errors for int, string, pointer; cancellation of a function, a "
                 "request in flight (request built plain / with its own value-only context) and `sleep 10`; channel-sequenced overlapping "
                 "executions of one object (A starts, B starts, B completes, A completes => tuple is A's; and the mirror) for Function and Shell, "
-                "the only feasible overlap for Curl (mutex spans Do); 8 goroutines on one object with id-carrying outcomes (tuple read at quiescence "
+                "the only feasible overlap for Curl (mutex spans Do); executions repeated on one CurlJob while the server keeps the previous "
+                "response's body open (stalled / trickling) under 4 relations of the two execution contexts, the later one plain or held-and-"
+                "cancelled; executions of one ShellJob that never start the shell (context cancelled / expired, shell missing / not executable) "
+                "as first execution and between executions that run; 8 goroutines on one object with id-carrying outcomes (tuple read at quiescence "
                 "only: getters lock separately); resource counts around 300 executions. non-trivial = distinct (job, input) cases. "
                 "Model: every distinct observed (code,status), (exit,status,err), function case and the full outcome scripts are "
                 "evaluated inside Coq (vm_compute) and compared.",
@@ -462,7 +533,7 @@ def replay(ctx, path):
         args = c.get("args") or SUBCMDS[name]
     fails = []
     recs = collect(binp, name, args, fails, "replay")
-    keys = ("kind", "variant", "want", "body", "callback", "note", "job")
+    keys = ("kind", "variant", "want", "body", "callback", "note", "job", "step")
     same = [f for f in fails if all(f["case"].get(k) == c.get(k) for k in keys)] or fails
     print(json.dumps(same[:2], default=str)[:3000])
     if same:
